@@ -85,13 +85,16 @@ def applyShard (active : List Hash) (sh : Shard) (f : Fault) (rs : List Req) (fi
 
 def restartShard (sh : Shard) : Shard := ⟨Sidecar.restart sh.clock sh.sc, sh.clock + 1⟩
 
+/-- ordinal `i` after a resize: the running ones keep running, the others start — from their store
+    directory if they existed before, empty otherwise -/
+def startedShard (w : World) (i : Nat) : Shard :=
+  match w.shards[i]? with
+  | some sh => if i < w.replicas then sh else restartShard sh
+  | none => freshShard
+
 /-- the StatefulSet is resized to `n` -/
 def resize (w : World) (n : Nat) : World :=
-  let started := (List.range n).map fun i =>
-    match w.shards[i]? with
-    | some sh => if i < w.replicas then sh else restartShard sh
-    | none => freshShard
-  { w with shards := started ++ w.shards.drop n, replicas := n }
+  { w with shards := (List.range n).map (startedShard w) ++ w.shards.drop n, replicas := n }
 
 def faultAt (faults : List Fault) (i : Nat) : Fault := (faults[i]?).getD {}
 
